@@ -67,7 +67,11 @@ PARTIAL = ('proved at program level (parser trees inside the writer domain of C0
            'without it); gaps_tidy does NOT hold of all lexer output (C10_gaps_tidy_not_for_every_source: a two-line block comment in '
            'the middle of a line) and stays a hypothesis, as does codes_tidy (multi-line strings); proved and '
            'unbounded: every run-level statement about the white-space pipeline, the whole-output clauses relative to an abstract '
-           'chunk list (C10_*_partial)')
+           'chunk list (C10_*_partial). For VALID programs the parser / domain hypotheses are discharged from a derivation in the '
+           'reference grammar (vsrc: derives, line_scoped, excl = the side condition of C08_complete, g_no_paren_suffix = finding '
+           'C09-paren-suffix-assert, g_no_trailing_sep): C10_output_form_valid, C10_indent_valid, C10_reindent_invariant_valid (both '
+           'layouts), C10_idempotent_valid_partial (first pass without any parser / writer hypothesis; the second pass needs only that the '
+           're-lexed output has a derivation - that it has one, the re-indexed derivation of the input, is NOT proved)')
 ASSUMPTIONS = ['indentwidth is an integer (0-8 in the monitor domain); programs are those on which luafmt succeeds (C09 covers success)',
                'interior lines of multi-line block comments and long strings are token content, not layout: re-indentations leave them alone',
                'blank lines before the first line of the file are not "separating lines" (the output may start with up to two)']
@@ -113,7 +117,11 @@ CLAIM = dict(
           "the reference dialect related by the monitor's byte-level test Spec.FmtShape.same_modulo_line_edges = Some true have such "
           "reference token lists; Proofs/FmtShapeBridge*.v: both reference readers refine one skeleton reader, "
           "C10_readers_agree_on_trivia) and C10_reindent_bytes (their composition: the re-indentation clause from source bytes with "
-          "same_modulo_line_edges as the hypothesis relating the two sources, both parses inside the writer domain); proved by re-running the walk induction with the counter and the token-stream depth state threaded "
+          "same_modulo_line_edges as the hypothesis relating the two sources, both parses inside the writer domain); "
+          "C10_output_form_valid, C10_indent_valid, "
+          "C10_reindent_invariant_valid, C10_idempotent_valid_partial (the same for every source of the dialect whose lexer tokens have a "
+          "derivation in the reference grammar within excl / g_no_paren_suffix / g_no_trailing_sep: parse, domain and no_trailing_sep follow - "
+          "Proofs/ValidDomain1..6.v, ValidDomainC10.v; the second pass of idempotence still asks for a derivation of the re-lexed text); proved by re-running the walk induction with the counter and the token-stream depth state threaded "
           "(Proofs/TokenDepthProofs.v, WriterCursorD.v, AstWriterDepth.v, FmtLineEnd.v). Regex sources, guards, replacement expressions, order, and the whole function text "
           "are regenerated from lua.py on every run and pinned. Tie: the extracted model equals the real method on ALL runs of length "
           "<= 5 (thorough 6) over {space,tab,\\n,\\r,-,/,a} x 4 positions x 3 (width,depth), on random long runs, and on every "
